@@ -444,14 +444,31 @@ def rule_null(ctx, rep):
             if si and si["kind"] == "disc" and si["subject"][0] == "call" and si["subject"][1].callee == LP + "LspProject::tokenize":
                 for succ, labs in si["edges"].items():
                     if labs == ["Err"]:
-                        # on the Err arm a send_response with a None result
+                        # on the Err arm a send_response with a None result: sent from the arm itself, or after the arms joined with a
+                        # value that the Err arm (and nothing after it) set to None
                         region = h.reachable(succ)
+                        others = set()
+                        for s2, l2 in si["edges"].items():
+                            if l2 != ["Err"]:
+                                others |= h.reachable(s2)
+                        only_err = region - others
                         for c in h.calls():
                             if c.bb in region and c.callee == "ironplcc::lsp::LspServer::send_response" and len(c.args) > 2:
                                 p = op_place(c.args[2])
-                                d = h.single_def(p[0]) if p and not p[1] else None
-                                if d and d[0] == "stmt" and d[3][0] == "agg" and d[3][1].get("variant") == "None":
+                                for _ in range(4):
+                                    d = h.single_def(p[0]) if p and not p[1] else None
+                                    if d and d[0] == "stmt" and d[3][0] == "use" and d[3][1][0] in ("cp", "mv") and not d[3][1][1][1]:
+                                        p = d[3][1][1]
+                                    else:
+                                        break
+                                if d and d[0] == "stmt" and d[3][0] == "agg" and d[3][1].get("variant") == "None" and (c.bb in only_err or d[1] in only_err):
                                     good = True
+                                elif p is not None and not p[1] and c.bb not in only_err:
+                                    ds = [d_ for d_ in h.defs.get(p[0], []) if d_[1] in region]
+                                    in_err = [d_ for d_ in ds if d_[1] in only_err]
+                                    after = [d_ for d_ in ds if d_[1] not in only_err and c.bb in h.reachable(d_[1]) and d_[1] != c.bb]
+                                    if in_err and all(d_[0] == "stmt" and d_[3][0] == "agg" and d_[3][1].get("variant") == "None" for d_ in in_err) and not after:
+                                        good = True
         if good:
             r.ok("handle_request|Err => None result", "%s:%d" % (h.f["file"], h.f["line"]))
         else:
